@@ -106,7 +106,7 @@ fn pick_imm64(rng: &mut Rng) -> i128 {
 }
 
 /// operands of the right shape for `kind`, with values drawn from boundary classes
-fn gen_ops(rng: &mut Rng, kind: AsmKind) -> Vec<Opnd> {
+pub fn gen_ops(rng: &mut Rng, kind: AsmKind) -> Vec<Opnd> {
     use Opnd::*;
     match kind {
         AsmKind::AluBinary => {
@@ -133,7 +133,7 @@ fn gen_ops(rng: &mut Rng, kind: AsmKind) -> Vec<Opnd> {
 }
 
 /// a wrong operand list for `kind`
-fn gen_wrong_ops(rng: &mut Rng) -> Vec<Opnd> {
+pub fn gen_wrong_ops(rng: &mut Rng) -> Vec<Opnd> {
     use Opnd::*;
     let n = rng.below(5) as usize;
     (0..n)
@@ -145,7 +145,7 @@ fn gen_wrong_ops(rng: &mut Rng) -> Vec<Opnd> {
         .collect()
 }
 
-fn render(rng: &mut Rng, name: &str, ops: &[Opnd], kind: Option<AsmKind>) -> String {
+pub fn render(rng: &mut Rng, name: &str, ops: &[Opnd], kind: Option<AsmKind>) -> String {
     let mut s = String::from(name);
     for (i, o) in ops.iter().enumerate() {
         s.push_str(if i == 0 { " " } else if rng.chance(1, 5) { "," } else { ", " });
@@ -370,7 +370,7 @@ fn digits(rng: &mut Rng, n: usize, hexd: bool) -> String {
         .collect()
 }
 
-fn hostile_number(rng: &mut Rng) -> String {
+pub fn hostile_number(rng: &mut Rng) -> String {
     let sign = *rng.pick(&["", "", "-", "+"]);
     match rng.below(12) {
         0 => format!("{sign}9223372036854775807"),
@@ -1071,4 +1071,36 @@ pub fn run_c17(a: &Args, rep: &mut Report) {
             }
         }
     }
+}
+
+/// A text for the std/no_std transcript corpus: valid lines, boundary operands, hostile numerals.
+pub fn corpus_text(rng: &mut Rng, table: &[(String, AsmKind, u8)]) -> String {
+    let mut s = String::new();
+    for li in 0..rng.range(1, 4) {
+        let (name, kind, _) = &table[rng.below(table.len() as u64) as usize];
+        if li > 0 {
+            s.push('\n');
+        }
+        match rng.below(10) {
+            0 => {
+                s.push_str(&format!("{} {}", name, hostile_number(rng)));
+            }
+            1 => {
+                let ops = gen_wrong_ops(rng);
+                s.push_str(&render(rng, name, &ops, Some(*kind)));
+            }
+            2 => {
+                let ops = gen_ops(rng, *kind);
+                let l = render(rng, name, &ops, Some(*kind));
+                let cut = rng.below(l.len() as u64 + 1) as usize;
+                s.push_str(&l.chars().take(cut).collect::<String>());
+            }
+            3 => s.push_str(&format!("{}q r1, 2", name)),
+            _ => {
+                let ops = gen_ops(rng, *kind);
+                s.push_str(&render(rng, name, &ops, Some(*kind)));
+            }
+        }
+    }
+    s
 }
